@@ -1,10 +1,11 @@
 """C10 Unification computes most general unifiers: one step of the worklist (engine M)."""
-from vlib import mprop
-from vlib.mirsmt import c10
+from vlib import kprop
+from vlib.kani import Harness
 
 ENCODED = ["Unifier::unify_atom", "Unifier::unify_char", "Unifier::unify_structure", "Unifier::unify_list",
            "Unifier::unify_partial_string", "Unifier::unify_f64", "Unifier::unify_internal (loop body: "
-           "dispatch on the first cell's tag)", "(number kernels: C05; bind/trail: C11)"]
+           "dispatch on the first cell's tag, tabu-list hits)", "Heap::last_str_char_and_tail (K: the "
+           "string stepping used by partial_string_to_pdl)", "(number kernels: C05; bind/trail: C11)"]
 ASSUME = ["cells are dereferenced and stored before a kernel sees them (unify_internal does so; checked "
           "as part of the routing obligation only through the operands handed on)",
           "no Str cell carries './2' (lists are Lis / PStrLoc cells: parser Term::Cons, functor/3): the "
@@ -18,5 +19,24 @@ OUTSIDE = ("the worklist as a whole (termination, the tabu list for rational tre
            "(string stepping: C20), attributed-variable wake-up, 'no variable outside the two terms is bound'")
 
 
+# string against list: partial_string_to_pdl steps through the string with Heap::last_str_char_and_tail
+HARNESSES = [
+    Harness("src/machine/heap.rs", "heap_c20", "c20_last_char_multibyte_mid2", cost=60, timeout=1500,
+            desc="stepping over a 2-byte character inside a string: next offset = offset + its UTF-8 length",
+            bounds="ASCII + U+00F1 + ASCII, ASCII bytes symbolic", covers_required=False),
+    Harness("src/machine/heap.rs", "heap_c20", "c20_last_char_multibyte_mid4", cost=60, timeout=1500,
+            desc="same with a 4-byte character", bounds="ASCII + U+1F600 + ASCII", covers_required=False),
+    Harness("src/machine/heap.rs", "heap_c20", "c20_last_char_3", cost=120, timeout=1500,
+            desc="stepping through an ASCII string: character at the offset, next offset or tail cell",
+            bounds="|s|=3, every offset", covers_required=False),
+]
+
+
+def mpost(results, tier="quick"):
+    from vlib.mirsmt import c10
+    return c10.run(thorough=(tier == "thorough"))
+
+
 def run(tier):
-    return mprop.run("C10", tier, [("kernels", c10.run)], ASSUME, ENCODED, BOUNDS, OUTSIDE)
+    return kprop.run("C10", HARNESSES, tier, ASSUME, ENCODED, BOUNDS, OUTSIDE,
+                     post=lambda res: mpost(res, tier))
